@@ -1332,7 +1332,12 @@ class Builder(object):
                     self.verifyName(frame, command, tokens, index)
 
                 elif connective == 'via':
-                    inode, index = self.parseIndirect(tokens, index, node=True)
+                    # first is a clause keyword of this verb but not a reserved
+                    # word so the inode with its relation ends at a first clause
+                    end = index
+                    while end < len(tokens) and tokens[end] != 'first':
+                        end += 1
+                    inode, index = self.parseIndirect(tokens[:end], index, node=True)
 
                 else:
                     msg = "Error building %s. Bad connective got %s." %\
